@@ -546,6 +546,9 @@ def __Solver_1(simu: "_Simu", problemType: "ProblemType") -> _types.FloatArray:
     x0 = x0[dofsUnknown]
 
     lb, ub = simu.Get_lb_ub(problemType)
+    if np.ndim(lb) == 1 and len(lb) == x.shape[0]:
+        # the bounds are given for every dof: keep those of the unknowns
+        lb, ub = np.asarray(lb)[dofsUnknown], np.asarray(ub)[dofsUnknown]
 
     bi -= Aic @ xc
     if len(dofsUnknown) == 0:
